@@ -24,7 +24,20 @@ ANCHORS = ["_decomposition.to_tt", "_decomposition.mat_to_tt", "_decomposition.r
            "_tt_base.TT.__init__"]
 
 RANK_CHOP = "torchtt._decomposition.rank_chop"
-SHARE = {"(d - 1)": Fraction(-1, 2), "d": Fraction(-1, 2)}
+# the number of truncations: an order (a length) or an order minus one - whatever the local is called
+ORDER = r"len\([^()]*\)"
+SHARE = {"re:\\(" + ORDER + " - 1\\)": Fraction(-1, 2), "re:" + ORDER: Fraction(-1, 2)}
+
+
+def _canon_arg(nz, e):
+    """the tensor an expression denotes, through single-assignment locals and value-preserving wrappers (.cpu().numpy())"""
+    cur = al.strip_wrappers(e)
+    for _ in range(4):
+        if isinstance(cur, ast.Name) and cur.id in nz.single_def and cur.id not in nz.f.params():
+            cur = al.strip_wrappers(nz.single_def[cur.id])
+        else:
+            break
+    return norm(cur)
 
 
 def allowance_sites(model: Model, fshort: str, share, eps_param="eps", rule="E4-ALLOWANCE"):
@@ -36,7 +49,7 @@ def allowance_sites(model: Model, fshort: str, share, eps_param="eps", rule="E4-
         if len(call.args) < 2:
             obs.append(Ob(rule, k, ERROR, model.where(f, call), norm(call)[:100], "rank_chop call without threshold argument"))
             continue
-        spec = norm(al.strip_wrappers(call.args[0]))
+        spec = _canon_arg(nz, call.args[0])
         env = nz.env_at(call)
         ms = nz.monos(call.args[1], env)
         if ms is None:
@@ -45,9 +58,11 @@ def allowance_sites(model: Model, fshort: str, share, eps_param="eps", rule="E4-
             continue
         bad = None
         opaque = None
-        known = {"EPS:" + eps_param} | set(share) | {"d", "(d - 1)", "dfin", "(dfin - 1)"}
+        import re as _re
+        known_re = [_re.compile(ORDER), _re.compile(r"\(" + ORDER + r" - 1\)")] + [_re.compile(a[3:]) for a in share if a.startswith("re:")]
+        known = {"EPS:" + eps_param} | {a for a in share if not a.startswith("re:")}
         for m in ms:
-            unk = [a for a in m.exps if a not in known and not a.startswith("NORM(")]
+            unk = [a for a in m.exps if a not in known and not a.startswith("NORM(") and not any(r.fullmatch(a) for r in known_re)]
             if unk:
                 opaque = (m, unk)
                 continue
@@ -269,9 +284,9 @@ def cmp_total_ob(model: Model):
         ret = norm([x for x in n.body if isinstance(x, ast.Return)][0])
         ek = f"_decomposition.rank_chop:CMP-TOTAL:early:{t}"
         ok = ("norm" in t and "== 0" in t and ret == "return 1") or ("<= 0" in t and ".size" in ret)
-        obs.append(Ob("CMP-TOTAL", ek, OK if ok else VIOLATED, model.where(f, n), f"if {t}: {ret}",
+        obs.append(Ob("CMP-TOTAL", ek, OK if ok else ERROR, model.where(f, n), f"if {t}: {ret}",
                       "admissible early return" if ok else
-                      "early return outside the two admissible cases (zero spectrum -> rank 1, eps <= 0 -> keep all)"))
+                      "early return outside the two recognised cases (zero spectrum -> rank 1, eps <= 0 -> keep all): the decision it takes is not modelled"))
     return obs
 
 
